@@ -61,6 +61,7 @@ class Execution:
     diag: t.Any = None
     chart: t.Any = None
     input_copies: t.Any = None
+    meta_copies: t.Any = None
 
     def digest(self) -> str:
         return hashlib.sha1(repr([(e[0],) + tuple(map(_short, e[1:])) for e in self.log]).encode()).hexdigest()[:16]
@@ -115,6 +116,7 @@ def execute(case: Case, prefix: t.Sequence[str] = (), bound: int = 0, reduce: bo
     W.CUR = world
     nruns = len(case.inputs)
     given_inputs = [dict(i) if i is not None else None for i in case.inputs]
+    given_meta = [{'tenant': 't', 'trace': [1, 2]} for _ in case.inputs]
     actions: t.List[str] = []
     points: t.Dict[int, tuple] = {}
     status = None
@@ -128,7 +130,7 @@ def execute(case: Case, prefix: t.Sequence[str] = (), bound: int = 0, reduce: bo
                 W.RUN.set(rid)
                 if case.coro_factory is not None:
                     return await case.coro_factory()
-                return await chart.run(pipeline_id=f'run{rid}', input_kwargs=given_inputs[rid])
+                return await chart.run(pipeline_id=f'run{rid}', input_kwargs=given_inputs[rid], meta=given_meta[rid])
             tasks.append(loop.create_task(runner(), name=f'mc-run{rid}'))
         steps = 0
         cost = 0
@@ -249,7 +251,7 @@ def execute(case: Case, prefix: t.Sequence[str] = (), bound: int = 0, reduce: bo
     W.CUR = None
     return Execution(status=status, outcomes=outcomes, log=world.log, actions=actions, points=points,
                      steps=steps, deviations=cost, leftover=leftover, late=late, drain_steps=drain,
-                     world=world, diag=diag, chart=chart, input_copies=given_inputs)
+                     world=world, diag=diag, chart=chart, input_copies=given_inputs, meta_copies=given_meta)
 
 
 @dataclass
